@@ -2,8 +2,20 @@
 //! Generates SQL files with directive comments, lints each with noqa off and on,
 //! extracts the comment leaves with their source positions and emits the
 //! correspondence case `lint_noqa comments parse_vs rule_vs == reported`.
+//!
+//! Generator classes:
+//!  * `readme-forms` / `odd-forms` — 2-7 statement lines, directives at the end / start of lines;
+//!  * `deep-files` — the same lines behind up to 60 lines of padding and with random indentation, so
+//!    that line numbers and columns of directives and violations range over each other's values;
+//!  * `placed-list` — one select list over many lines, directives before / between / behind the
+//!    aliased columns of a line, at any indentation and any depth of the file;
+//!  * `templated-list` / `templated-stmts` — the same under `templater = placeholder` (8 parameter
+//!    styles, values shorter / longer than the placeholder, values spanning several lines, values
+//!    set through the ini text or through the configuration object): positions in the templated
+//!    text differ from the positions in the source, in column and in line;
+//!  * some files of the new classes with CRLF line ends.
 use serde_json::json;
-use sqruff_lib::core::config::FluffConfig;
+use sqruff_lib::core::config::{FluffConfig, Value as CfgValue};
 use sqruff_lib::core::linter::core::Linter;
 use sqruff_lib_core::dialects::syntax::{SyntaxKind, SyntaxSet};
 use sqruff_lib_core::errors::SQLBaseError;
@@ -29,14 +41,70 @@ fn viol_j(v: &SQLBaseError) -> serde_json::Value {
     json!([v.line_no, v.line_pos, v.rule.as_ref().map(|r| r.code)])
 }
 
-fn mk_linter(dialect: &str, rules: &str, disable_noqa: bool) -> Linter {
-    let src = format!(
+/// Configuration of the placeholder templater for one file.
+#[derive(Clone, Debug, PartialEq)]
+struct Templ {
+    style: String,
+    params: Vec<(String, String)>,
+    /// every value set through the configuration object instead of the ini text
+    api: bool,
+}
+impl Templ {
+    fn json(&self) -> serde_json::Value {
+        json!({"style":self.style,"params":self.params,"api":self.api})
+    }
+    fn from_json(v: &serde_json::Value) -> Option<Templ> {
+        if !v.is_object() {
+            return None;
+        }
+        Some(Templ {
+            style: v["style"].as_str().unwrap().to_string(),
+            params: v["params"].as_array().unwrap().iter().map(|p| (p[0].as_str().unwrap().to_string(), p[1].as_str().unwrap().to_string())).collect(),
+            api: v["api"].as_bool().unwrap_or(false),
+        })
+    }
+}
+
+/// Can the ini reader carry `key = value` (it trims, cuts at comment signs, has no multi-line values)?
+fn ini_ok(k: &str, v: &str) -> bool {
+    !v.is_empty() && v.trim() == v && !v.contains(['\n', '#', ';', '%']) && !k.is_empty()
+}
+fn value_text(v: &CfgValue) -> Option<String> {
+    match (v.as_string(), v.as_int(), v.as_bool()) {
+        (Some(s), None, None) => Some(s.to_string()),
+        (None, Some(i), None) => Some(i.to_string()),
+        (None, None, Some(b)) => Some(if b { "true" } else { "false" }.to_string()),
+        _ => None,
+    }
+}
+
+fn mk_linter(dialect: &str, rules: &str, disable_noqa: bool, templ: Option<&Templ>) -> Linter {
+    let mut src = format!(
         "[sqruff]\ndialect = {}\nrules = {}\n{}",
         dialect,
         rules,
         if disable_noqa { "disable_noqa = True\n" } else { "" }
     );
-    Linter::new(FluffConfig::from_source(&src, None), None, None, true)
+    if let Some(t) = templ {
+        src.push_str(&format!("templater = placeholder\n\n[sqruff:templater:placeholder]\nparam_style = {}\n", t.style));
+        for (k, v) in &t.params {
+            if !t.api && ini_ok(k, v) {
+                src.push_str(&format!("{} = {}\n", k, v));
+            }
+        }
+    }
+    let mut cfg = FluffConfig::from_source(&src, None);
+    if let Some(t) = templ {
+        // whatever the ini text did not deliver exactly goes in through the configuration object
+        if let Some(m) = cfg.raw.get_mut("templater").and_then(|x| x.as_map_mut()).and_then(|x| x.get_mut("placeholder")).and_then(|x| x.as_map_mut()) {
+            for (k, v) in &t.params {
+                if m.get(k.as_str()).and_then(value_text).as_deref() != Some(v.as_str()) {
+                    m.insert(k.clone(), CfgValue::String(v.as_str().into()));
+                }
+            }
+        }
+    }
+    Linter::new(cfg, None, None, true)
 }
 
 /// README forms with arbitrary interior whitespace where the forms allow it.
@@ -59,19 +127,22 @@ fn readme_directive(rng: &mut Rng) -> String {
         }
         4 => format!("--{}noqa:{}disable=all", sp(rng), sp(rng)),
         5 => format!("--{}noqa:{}enable=all", sp(rng), sp(rng)),
-        _ => {
-            let inner = match rng.below(7) {
-                0 => "noqa: disable=all".to_string(),
-                1 => "noqa: enable=all".to_string(),
-                2 => format!("noqa: disable={}", CODES[rng.below(3)]),
-                3 => format!("noqa: enable={}", CODES[rng.below(3)]),
-                4 => "noqa".to_string(),
-                5 => format!("noqa: {}", CODES[rng.below(6)]),
-                _ => format!("noqa: {},{}", CODES[rng.below(6)], CODES[rng.below(6)]),
-            };
-            format!("/* {} */", inner)
-        }
+        _ => block_directive(rng),
     }
+}
+
+/// README forms in a block comment.
+fn block_directive(rng: &mut Rng) -> String {
+    let inner = match rng.below(7) {
+        0 => "noqa: disable=all".to_string(),
+        1 => "noqa: enable=all".to_string(),
+        2 => format!("noqa: disable={}", CODES[rng.below(3)]),
+        3 => format!("noqa: enable={}", CODES[rng.below(3)]),
+        4 => "noqa".to_string(),
+        5 => format!("noqa: {}", CODES[rng.below(6)]),
+        _ => format!("noqa: {},{}", CODES[rng.below(6)], CODES[rng.below(6)]),
+    };
+    format!("/* {} */", inner)
 }
 
 /// Directive-like comments outside the README forms (malformed, odd spacing, prefixes).
@@ -110,19 +181,65 @@ fn odd_directive(rng: &mut Rng) -> String {
     ODD[rng.below(ODD.len())].to_string()
 }
 
-fn gen_file(rng: &mut Rng, odd: bool) -> String {
-    let nlines = rng.range(2, 7);
+/// Shape of a statement file beyond the 2-7 directive-carrying lines.
+#[derive(Default)]
+struct Shape<'a> {
+    /// up to this many lines without directives in front (blank lines, plain comments, statements)
+    pad_max: usize,
+    /// random indentation (0..=40 blanks) in front of lines
+    indent: bool,
+    /// statements with placeholders for this templater configuration
+    templ: Option<&'a Templ>,
+}
+
+fn indentation(rng: &mut Rng) -> String {
+    let n = match rng.below(6) {
+        0 => 0,
+        1 => 4,
+        2 => rng.range(1, 8),
+        _ => rng.range(0, 40),
+    };
+    " ".repeat(n)
+}
+
+fn gen_file(rng: &mut Rng, odd: bool, shape: &Shape) -> String {
     let mut s = String::new();
+    if shape.pad_max > 0 {
+        for _ in 0..rng.range(0, shape.pad_max) {
+            match rng.below(6) {
+                0 => {}
+                1 => s.push_str("-- a plain comment"),
+                2 => s.push_str("SELECT a FROM t;"),
+                _ => s.push_str(STMTS[rng.below(STMTS.len())]),
+            }
+            s.push('\n');
+        }
+    }
+    let nlines = rng.range(2, 7);
     for _ in 0..nlines {
         let kind = rng.below(10);
+        let line_start = s.len();
+        if shape.indent {
+            s.push_str(&indentation(rng));
+        }
         if kind < 7 {
-            s.push_str(STMTS[rng.below(STMTS.len())]);
+            match shape.templ {
+                Some(t) if rng.chance(2, 3) => {
+                    let pattern = STMTS_T[rng.below(STMTS_T.len())];
+                    s.push_str(&fill(rng, pattern, t))
+                }
+                _ => s.push_str(STMTS[rng.below(STMTS.len())]),
+            }
             if rng.chance(3, 5) {
                 s.push_str(["", " ", "    "][rng.below(3)]);
                 let d = if odd && rng.chance(1, 2) { odd_directive(rng) } else { readme_directive(rng) };
                 if d.starts_with("/*") && rng.chance(1, 2) {
                     // block comment in the middle of a line: put it before the statement instead
-                    let stmt_start = s.rfind('\n').map(|i| i + 1).unwrap_or(0);
+                    let stmt_start = if shape.indent && rng.chance(1, 2) {
+                        s[line_start..].find(|c| c != ' ').map(|i| line_start + i).unwrap_or(line_start)
+                    } else {
+                        line_start
+                    };
                     s.insert_str(stmt_start, &format!("{} ", d));
                     // ... and sometimes a second directive at the end of the same line
                     if rng.chance(1, 2) {
@@ -143,9 +260,164 @@ fn gen_file(rng: &mut Rng, odd: bool) -> String {
     s
 }
 
-type Linters = std::collections::HashMap<(String, String, bool), Linter>;
-fn linter<'a>(ls: &'a mut Linters, dialect: &str, rules: &str, off: bool) -> &'a Linter {
-    ls.entry((dialect.to_string(), rules.to_string(), off)).or_insert_with(|| mk_linter(dialect, rules, off))
+// ---------------------------------------------------------------- placeholder templater
+const STYLES: &[&str] = &["colon", "dollar", "pyformat", "question_mark", "percent", "numeric_dollar", "numeric_colon", "ampersand"];
+/// Named parameters: values shorter and longer than the placeholder, values over several lines,
+/// a value that is a rule code (for a placeholder inside a directive), a value with a violation in it.
+/// `u` has no value: it renders as its name.
+const NAMED: &[(&str, &str)] = &[
+    ("tenant_specific_amount_column", "amt"),
+    ("k", "a_rather_long_generated_column_name_for_the_key"),
+    ("ml", "col_m,\n    col_n n"),
+    ("ml2", "col_p p,\n\n    col_q"),
+    ("v", "1"),
+    ("rule", "AL02"),
+    ("e", "col_e e"),
+    ("a_fairly_long_name_for_a_short_value", "c"),
+];
+/// Positional / numeric parameters (9 and above have no value).
+const NUMBERED: &[(&str, &str)] = &[
+    ("1", "amt_but_quite_a_bit_longer_than_the_placeholder"),
+    ("2", "x"),
+    ("3", "col_m,\n    col_n n"),
+    ("4", "c"),
+    ("5", "col_e e"),
+    ("6", "a_rather_long_generated_column_name_for_the_key"),
+    ("8", "1"),
+];
+const STMTS_T: &[&str] = &[
+    "select {P},b from t",
+    "SELECT {P} a FROM foo",
+    "SELECT  a  AS x,  {P}, b y FROM  t  WHERE a={P}",
+    "SeLeCt  {P} from tBl ;",
+    "SELECT {P}, {P} z, col_b b FROM foo;",
+];
+
+fn numbered(style: &str) -> bool {
+    matches!(style, "question_mark" | "percent" | "numeric_dollar" | "numeric_colon")
+}
+fn gen_templ(rng: &mut Rng) -> Templ {
+    let style = STYLES[rng.below(STYLES.len())];
+    let table = if numbered(style) { NUMBERED } else { NAMED };
+    Templ { style: style.to_string(), params: table.iter().map(|(k, v)| (k.to_string(), v.to_string())).collect(), api: rng.chance(1, 4) }
+}
+/// One placeholder of the configuration's style.
+fn placeholder(rng: &mut Rng, t: &Templ) -> String {
+    let name = if numbered(&t.style) {
+        rng.range(1, 9).to_string()
+    } else if rng.chance(1, 8) {
+        "u".to_string()
+    } else {
+        // not the rule-code parameter: that one is for directives
+        loop {
+            let k = &t.params[rng.below(t.params.len())].0;
+            if k != "rule" {
+                break k.clone();
+            }
+        }
+    };
+    match t.style.as_str() {
+        "colon" | "numeric_colon" => format!(":{}", name),
+        "pyformat" => format!("%({})s", name),
+        "dollar" | "numeric_dollar" | "ampersand" => {
+            let sign = if t.style == "ampersand" { '&' } else { '$' };
+            if rng.chance(1, 2) { format!("{}{}", sign, name) } else { format!("{}{{{}}}", sign, name) }
+        }
+        "question_mark" => "?".to_string(),
+        "percent" => "%s".to_string(),
+        other => panic!("style {}", other),
+    }
+}
+fn fill(rng: &mut Rng, pattern: &str, t: &Templ) -> String {
+    let mut out = String::new();
+    let mut rest = pattern;
+    while let Some(i) = rest.find("{P}") {
+        out.push_str(&rest[..i]);
+        out.push_str(&placeholder(rng, t));
+        rest = &rest[i + 3..];
+    }
+    out.push_str(rest);
+    out
+}
+
+// ---------------------------------------------------------------- directives placed inside one select list
+/// Range directives on the rules the list violates most of the time, otherwise any README form.
+fn list_directive(rng: &mut Rng, block: bool, templ: Option<&Templ>) -> String {
+    let inner = match rng.below(10) {
+        0 => "noqa: disable=all".to_string(),
+        1 => "noqa: enable=all".to_string(),
+        2 | 3 | 4 => format!("noqa: disable={}", ["AL02", "AL02", "CP02", "AL02,CP02", "LT01"][rng.below(5)]),
+        5 | 6 => format!("noqa: enable={}", ["AL02", "AL02", "CP02", "CP02,AL02", "LT01"][rng.below(5)]),
+        7 => {
+            // the rule code comes out of a placeholder (named colon / dollar / pyformat styles only)
+            match templ {
+                Some(t) if matches!(t.style.as_str(), "colon" | "dollar" | "pyformat") => {
+                    let ph = match t.style.as_str() {
+                        "colon" => ":rule",
+                        "dollar" => "${rule}",
+                        _ => "%(rule)s",
+                    };
+                    format!("noqa: {}={}", ["disable", "enable"][rng.below(2)], ph)
+                }
+                _ => "noqa: disable=AL02".to_string(),
+            }
+        }
+        _ => return if block { block_directive(rng) } else { readme_directive(rng) },
+    };
+    if block { format!("/* {} */", inner) } else { format!("--{}{}", ["", " "][rng.below(2)], inner) }
+}
+
+/// `SELECT` / padding lines / 2-6 lines of select elements with directives in front of, between and
+/// behind the elements, each line at its own indentation / `1` / `FROM foo`.
+fn gen_list(rng: &mut Rng, pad_max: usize, templ: Option<&Templ>) -> String {
+    const ELEMS: &[&str] = &["col_a a", "col_b b", "col_c", "COL_d d", "col_e AS e", "col_f  f", "1 AS One", "Col_G"];
+    let mut s = String::from("SELECT\n");
+    for i in 0..rng.range(0, pad_max) {
+        match rng.below(8) {
+            0 => {}
+            1 => s.push_str("    -- a plain comment"),
+            2 => s.push_str(&format!("    col_{} p{},", i, i)),
+            _ => s.push_str(&format!("    col_{},", i)),
+        }
+        s.push('\n');
+    }
+    for _ in 0..rng.range(2, 6) {
+        s.push_str(&indentation(rng));
+        if rng.chance(1, 4) {
+            s.push_str(&list_directive(rng, true, templ));
+            s.push_str(["", " ", "  "][rng.below(3)]);
+        }
+        for _ in 0..rng.range(1, 3) {
+            match templ {
+                Some(t) if rng.chance(1, 2) => {
+                    s.push_str(&placeholder(rng, t));
+                    if rng.chance(1, 3) {
+                        s.push_str(" z");
+                    }
+                }
+                _ => s.push_str(ELEMS[rng.below(ELEMS.len())]),
+            }
+            s.push(',');
+            s.push_str(["", " ", " ", "  "][rng.below(4)]);
+            if rng.chance(1, 5) {
+                s.push_str(&list_directive(rng, true, templ));
+                s.push(' ');
+            }
+        }
+        if rng.chance(1, 2) {
+            let block = rng.chance(1, 4);
+            s.push_str(&list_directive(rng, block, templ));
+        }
+        s.push('\n');
+    }
+    s.push_str("    1\nFROM foo\n");
+    s
+}
+
+type Linters = std::collections::HashMap<(String, String, bool, String), Linter>;
+fn linter<'a>(ls: &'a mut Linters, dialect: &str, rules: &str, off: bool, templ: Option<&Templ>) -> &'a Linter {
+    let tkey = templ.map(|t| t.json().to_string()).unwrap_or_default();
+    ls.entry((dialect.to_string(), rules.to_string(), off, tkey)).or_insert_with(|| mk_linter(dialect, rules, off, templ))
 }
 
 struct Item {
@@ -154,22 +426,26 @@ struct Item {
     dialect: String,
     rules: String,
     sql: String,
+    templ: Option<Templ>,
 }
 
 fn run_one(ls: &mut Linters, it: &Item, out: &mut Buf) {
     let (group, cls, dialect, rules, sql) = (it.group, it.cls, it.dialect.as_str(), it.rules.as_str(), it.sql.as_str());
     out.count("files", 1);
-    linter(ls, dialect, rules, true);
-    linter(ls, dialect, rules, false);
-    let off = &ls[&(dialect.to_string(), rules.to_string(), true)];
-    let on = &ls[&(dialect.to_string(), rules.to_string(), false)];
-    let input = json!({"dialect":dialect,"rules":rules,"sql":sql});
+    let templ = it.templ.as_ref();
+    let tkey = templ.map(|t| t.json().to_string()).unwrap_or_default();
+    linter(ls, dialect, rules, true, templ);
+    linter(ls, dialect, rules, false, templ);
+    let off = &ls[&(dialect.to_string(), rules.to_string(), true, tkey.clone())];
+    let on = &ls[&(dialect.to_string(), rules.to_string(), false, tkey)];
+    let input = json!({"dialect":dialect,"rules":rules,"sql":sql,"templ":templ.map(|t| t.json())});
     let r = catch(|| {
         let a = off.lint_string(sql, None, false);
         let b = on.lint_string(sql, None, false);
         let tables = Tables::default();
         let parsed = on.parse_string(&tables, sql, None).unwrap();
         let n_parse_vs = parsed.violations.len();
+        let mut templated_pos: Vec<(usize, usize)> = vec![];
         let comments: Vec<(String, usize, usize)> = match &parsed.tree {
             Some(tree) => tree
                 .recursive_crawl(
@@ -181,14 +457,15 @@ fn run_one(ls: &mut Linters, it: &Item, out: &mut Buf) {
                 .into_iter()
                 .map(|c| {
                     let (l, p) = c.get_position_marker().unwrap().source_position();
+                    templated_pos.push(c.get_position_marker().unwrap().templated_position());
                     (c.raw().to_string(), l, p)
                 })
                 .collect(),
             None => vec![],
         };
-        (a.violations, b.violations, n_parse_vs, comments)
+        (a.violations, b.violations, n_parse_vs, comments, templated_pos)
     });
-    let (all_vs, on_vs, n_parse_vs, comments) = match r {
+    let (all_vs, on_vs, n_parse_vs, comments, templated_pos) = match r {
         Ok(x) => x,
         Err(msg) => {
             out.count("panics", 1);
@@ -210,6 +487,34 @@ fn run_one(ls: &mut Linters, it: &Item, out: &mut Buf) {
     if comments.iter().any(|(raw, _, _)| raw.contains("able=")) {
         out.count("files_with_range_directive", 1);
     }
+    // how far the inputs spread over the positions the mask compares
+    let range_ds: Vec<(usize, (usize, usize), (usize, usize))> = comments
+        .iter()
+        .enumerate()
+        .filter(|(_, (raw, _, _))| raw.contains("noqa") && raw.contains("able="))
+        .map(|(i, (_, l, p))| (i, (*l, *p), templated_pos[i]))
+        .collect();
+    if range_ds.iter().any(|(_, (l, p), _)| all_vs.iter().any(|v| v.line_no == *l && v.line_pos < *p)) {
+        out.count("files_with_violation_before_range_directive_on_its_line", 1);
+    }
+    if range_ds.iter().any(|(_, (l, p), _)| all_vs.iter().any(|v| v.line_no == *l && v.line_pos > *p)) {
+        out.count("files_with_violation_behind_range_directive_on_its_line", 1);
+    }
+    if range_ds.iter().any(|(_, (l, p), _)| p <= l) {
+        out.count("files_with_range_directive_column_at_most_line_number", 1);
+    }
+    if range_ds.iter().any(|(_, (l, _), _)| all_vs.iter().any(|v| v.line_no == *l && v.line_pos <= *l)) {
+        out.count("files_with_violation_column_at_most_line_number_on_directive_line", 1);
+    }
+    if it.templ.is_some() {
+        out.count("files_templated", 1);
+        if comments.iter().zip(&templated_pos).any(|((raw, l, p), (tl, tp))| raw.contains("noqa") && l == tl && p != tp) {
+            out.count("files_templated_directive_column_shifted", 1);
+        }
+        if comments.iter().zip(&templated_pos).any(|((raw, l, _), (tl, _))| raw.contains("noqa") && l != tl) {
+            out.count("files_templated_directive_line_shifted", 1);
+        }
+    }
     if on_vs.iter().any(|v| v.rule.is_none() && v.description.contains("noqa")) {
         out.count("files_with_malformed_directive_error", 1);
     }
@@ -228,15 +533,16 @@ pub fn main(args: &Args) {
     let mut out = Out::new(&args.out);
     let mut rng = Rng::new(args.seed);
     let mut items: Vec<Item> = vec![];
-    let mut push = |group: &'static str, cls: &'static str, dialect: &str, rules: &str, sql: &str| {
-        items.push(Item { group, cls, dialect: dialect.to_string(), rules: rules.to_string(), sql: sql.to_string() })
+    let mut push_t = |group: &'static str, cls: &'static str, dialect: &str, rules: &str, sql: &str, templ: Option<Templ>| {
+        items.push(Item { group, cls, dialect: dialect.to_string(), rules: rules.to_string(), sql: sql.to_string(), templ })
     };
 
     if let Some(path) = args.flag("--replay-input") {
         let v: serde_json::Value = serde_json::from_str(&std::fs::read_to_string(path).unwrap()).unwrap();
         let v = if v.get("input").is_some() { v["input"].clone() } else { v };
-        push("readme", "replay", v["dialect"].as_str().unwrap(), v["rules"].as_str().unwrap(), v["sql"].as_str().unwrap());
+        push_t("readme", "replay", v["dialect"].as_str().unwrap(), v["rules"].as_str().unwrap(), v["sql"].as_str().unwrap(), Templ::from_json(&v["templ"]));
     } else {
+        let mut push = |group: &'static str, cls: &'static str, dialect: &str, rules: &str, sql: &str| push_t(group, cls, dialect, rules, sql, None);
         // regression corpus first
         let fixed: &[(&str, &str)] = &[
             ("CP01,LT01", "SeLeCt  1 from tBl ; -- noqa: disable=CP01\nSeLeCt  1 from tBl ;\nSeLeCt  1 from tBl ; -- noqa: enable=all\nSeLeCt  1 from tBl ;\n"),
@@ -254,14 +560,81 @@ pub fn main(args: &Args) {
         for i in 0..n_readme {
             let dialect = if i % 5 == 4 { DIALECTS[rng.below(DIALECTS.len())] } else { "ansi" };
             let rules = RULESETS[rng.below(RULESETS.len())];
-            let sql = gen_file(&mut rng, false);
+            let sql = gen_file(&mut rng, false, &Shape::default());
             push("readme", "readme-forms", dialect, rules, &sql);
         }
         for _ in 0..n_odd {
             let rules = RULESETS[rng.below(RULESETS.len())];
-            let sql = gen_file(&mut rng, true);
+            let sql = gen_file(&mut rng, true, &Shape::default());
             push("odd", "odd-forms", "ansi", rules, &sql);
         }
+        // ---- positions: deep files, indentation, directives inside a select list
+        let crlf = |rng: &mut Rng, sql: String| if rng.chance(1, 12) { sql.replace('\n', "\r\n") } else { sql };
+        let some_dialect = |rng: &mut Rng| if rng.chance(1, 5) { DIALECTS[rng.below(DIALECTS.len())] } else { "ansi" };
+        const LIST_RULES: &[&str] = &["AL02", "AL02,CP02,LT01", "AL02,CP02", "core", "all"];
+        let k = if args.thorough() { 8 } else { 1 };
+        // the grid (line, column) of a leading and a trailing range directive around two violations
+        {
+            let mut cells: Vec<(usize, usize)> = (2..=64).flat_map(|l| (1..=64).map(move |c| (l, c))).collect();
+            if !args.thorough() {
+                rng.shuffle(&mut cells);
+                cells.truncate(150);
+            }
+            for (l, c) in cells {
+                let mut sql = String::from("SELECT\n");
+                for i in 2..l {
+                    sql.push_str(&format!("    col_{},\n", i));
+                }
+                sql.push_str(&" ".repeat(c - 1));
+                sql.push_str("/* noqa: disable=AL02 */ col_x x, col_y y, -- noqa: enable=AL02\n    col_z z\nFROM foo\n");
+                push("readme", "grid-line-column", "ansi", "AL02", &sql);
+            }
+        }
+        for i in 0..330 * k {
+            let odd = i % 4 == 3;
+            let rules = RULESETS[rng.below(RULESETS.len())];
+            let shape = Shape { pad_max: if rng.chance(1, 4) { 0 } else { 60 }, indent: rng.chance(3, 4), templ: None };
+            let sql = gen_file(&mut rng, odd, &shape);
+            let sql = crlf(&mut rng, sql);
+            let dialect = some_dialect(&mut rng);
+            push(if odd { "odd" } else { "readme" }, if odd { "deep-files-odd" } else { "deep-files" }, dialect, rules, &sql);
+        }
+        for _ in 0..450 * k {
+            let rules = LIST_RULES[rng.below(LIST_RULES.len())];
+            let pad = if rng.chance(1, 3) { 0 } else { 60 };
+            let sql = gen_list(&mut rng, pad, None);
+            let sql = crlf(&mut rng, sql);
+            let dialect = some_dialect(&mut rng);
+            push("readme", "placed-list", dialect, rules, &sql);
+        }
+        // ---- the placeholder templater: source positions differ from positions in the templated text
+        drop(push);
+        let templ_regression: &[(&str, &str, &[(&str, &str)], &str)] = &[
+            ("AL02", "colon", &[("ml", "col_m,\n    col_n n")], "SELECT\n    :ml,\n    col_b b, -- noqa: AL02\n    col_c c\nFROM foo\n"),
+        ];
+        for (rules, style, params, sql) in templ_regression {
+            let t = Templ { style: style.to_string(), params: params.iter().map(|(k, v)| (k.to_string(), v.to_string())).collect(), api: false };
+            push_t("readme", "templated-regression", "ansi", rules, sql, Some(t));
+        }
+        for _ in 0..350 * k {
+            let rules = LIST_RULES[rng.below(LIST_RULES.len())];
+            let t = gen_templ(&mut rng);
+            let pad = if rng.chance(1, 2) { 0 } else { 30 };
+            let sql = gen_list(&mut rng, pad, Some(&t));
+            let sql = crlf(&mut rng, sql);
+            let dialect = some_dialect(&mut rng);
+            push_t("readme", "templated-list", dialect, rules, &sql, Some(t));
+        }
+        for i in 0..200 * k {
+            let odd = i % 5 == 4;
+            let rules = RULESETS[rng.below(RULESETS.len())];
+            let t = gen_templ(&mut rng);
+            let shape = Shape { pad_max: if rng.chance(1, 2) { 0 } else { 30 }, indent: rng.chance(1, 2), templ: Some(&t) };
+            let sql = gen_file(&mut rng, odd, &shape);
+            let sql = crlf(&mut rng, sql);
+            push_t(if odd { "odd" } else { "readme" }, if odd { "templated-stmts-odd" } else { "templated-stmts" }, "ansi", rules, &sql, Some(t));
+        }
+        let mut push = |group: &'static str, cls: &'static str, dialect: &str, rules: &str, sql: &str| push_t(group, cls, dialect, rules, sql, None);
         if args.thorough() {
             // exhaustive: one of 8 directives or none on each of 4 statement lines
             let alphabet = [
